@@ -47,9 +47,21 @@ def c16(ctx):
                         shim, "15"], cwd=ROOT, env=env, stdout=subprocess.PIPE, stderr=subprocess.PIPE, timeout=3000)
     if r.returncode != 0 or not os.path.exists(out):
         raise Broken("crash driver failed: " + r.stderr.decode()[-800:])
+    # 2b. torn writes: the new object's file cut at EVERY byte offset
+    tout = os.path.join(wd, "torn.ndjson")
+    r = subprocess.run([sys.executable, "-m", "vf.drv_crash", lib, sfile, tout, os.path.join(wd, "wt"), str(ctx.seed), "torn",
+                        shim, "15"], cwd=ROOT, env=env, stdout=subprocess.PIPE, stderr=subprocess.PIPE, timeout=3000)
+    if r.returncode != 0 or not os.path.exists(tout):
+        raise Broken("torn-write driver failed: " + r.stderr.decode()[-800:])
+    with open(out, "a") as f:
+        f.write(open(tout).read())
     events = [json.loads(l) for l in open(out)]
     n = len(events)
-    ctx.log("crash exploration: %d scenarios, %d crash points" % (len(scen), n - len(scen)))
+    torn = [e for e in events if e["e"] == "Torn"]
+    if len(torn) < 100:
+        raise Broken("torn-write sweep produced only %d cuts" % len(torn))
+    ctx.log("crash exploration: %d scenarios, %d crash points, %d torn-write cuts" % (len(scen), n - len(scen) - len(torn) - 1,
+                                                                                   len(torn)))
     # 3. TLC decides: required model + the deviations of the known findings
     rejected = []
     devs_used = {}
@@ -90,7 +102,11 @@ def c16(ctx):
         with open(os.path.join(d, "info.json"), "w") as f:
             json.dump(dict(property="C16", kind="crash", scenario=bad.get("scenario"), k=bad.get("k"),
                            dev=sorted(known)), f)
-        if bad.get("e") == "Log":
+        if bad.get("e") == "Torn":
+            what = "the file of the object being created cut after %d of %d bytes (%s): recovery %s - a damaged file is " \
+                   "taken for an object" % (bad["L"], bad["size"], "at a record start" if bad["boundary"] else
+                                            "inside an attribute record", json.dumps(bad.get("rec"))[:200])
+        elif bad.get("e") == "Log":
             what = "the file-operation sequence of %s is not a behaviour of the StoreFS protocol" % bad.get("scenario")
         else:
             ops = log[0]["ops"] if log else []
@@ -103,6 +119,7 @@ def c16(ctx):
     ctx.coverage.update(dict(
         evaluations=len(crash_events), distinct_nontrivial=len(crash_events),
         states=mc["states"], transitions=mc["transitions"], traces_validated_against_impl=len(scen),
+        torn_write_cuts=len(torn), torn_write_cuts_inside_a_record=sum(1 for e in torn if not e["boundary"]),
         scenarios=scen, crash_points_per_scenario={e["scenario"]: len(e["ops"]) for e in events if e["e"] == "Log"},
         deviations_used={k: len(v) for k, v in devs_used.items()},
         samples=[dict(scenario=e["scenario"], ops=e["ops"][:20]) for e in events if e["e"] == "Log"][:2] +
@@ -112,7 +129,9 @@ def c16(ctx):
              "the StoreFS protocol) and then kills the process immediately before EVERY operation k; a fresh, "
              "time-limited process recovers; TLC (Trace_Crash over StoreFS) computes what each file holds at k and "
              "demands: opens without crash or hang, untouched objects and both PINs intact, written objects old or new "
-             "(created: absent), else exactly a deviation listed as known finding. Every crash point is distinct."))
+             "(created: absent), else exactly a deviation listed as known finding. Every crash point is distinct. Torn "
+             "writes: the new object's file cut at every byte offset; a cut inside an attribute record must leave the object "
+             "absent and everything else intact."))
     ctx.assumptions += ["process death, not power loss (no fsync in the code); stdio's internal writes of values larger "
                         "than the buffer are not interposable: objects stay below 4 kB",
                         "file backend (the SQLite backend delegates atomicity to SQLite's journal)"]
